@@ -330,7 +330,7 @@ func TestVerifC09Stall(t *testing.T) {
 	defer rep.Finish(t)
 	rep.Rule = "per group type and per position p (the p-th send of a task), the datastore stalls the chain-key write of that send; the caller's context is cancelled during the stall (control: not cancelled). " +
 		"If the call returns while its write is still pending, two more sends are made BEFORE the datastore lets the stalled write through and two after; otherwise the write is let through and four sends follow. " +
-		"Oracle: released envelopes carry pairwise distinct counters and open at the receiver, the stored chain counter never decreases (checked atomically with each write). distinct = (group type, position, cancelled?)"
+		"A third schedule: while the write of a send is stalled, a second caller queues up behind it and gives up (context cancelled), then a third sender starts; the stalled write is let through afterwards. Oracle: released envelopes carry pairwise distinct counters and open at the receiver, the stored chain counter never decreases (checked atomically with each write). distinct = (group type, position, schedule)"
 	rep.Assume("which of the two schedules is explored is decided by whether the cancelled call has returned after 150 ms; the verdict never depends on that delay")
 	ctx := context.Background()
 	prefix := "/" + dsNamespaceChainKeyForDeviceOnGroup + "/"
@@ -459,6 +459,114 @@ func TestVerifC09Stall(t *testing.T) {
 				c09JudgeReleased(ctx, rep, tag, recv, g, all)
 				sender.ds.OnMutation = nil
 			}
+		}
+	}
+	// ---- a caller that gives up while QUEUED behind a send whose write is stalled: it never held the lock, so its leaving
+	// must not let the next sender in before the stalled one has stored its chain key
+	for _, kind := range groupKinds {
+		for p := 0; p < verifkit.Pick(2, 6); p++ {
+			tag := fmt.Sprintf("%s stalled-send=%d queued-caller-cancelled", kind, p)
+			sender, recv, g, err := c09World(ctx, kind)
+			if err != nil {
+				rep.Inconclusivef("world: %v", err)
+				return
+			}
+			sender.ds.OnMutation = c09MonotoneHook(rep, tag)
+			var sent []c09Sent
+			var mu sync.Mutex
+			send := func(c context.Context, label string) error {
+				pl := []byte(tag + "/" + label)
+				data, err := sender.ss.SealEnvelope(c, g, wrapPayload(pl))
+				if err != nil {
+					return err
+				}
+				_, h := openHeadersAsMember(g, data)
+				mu.Lock()
+				sent = append(sent, c09Sent{pl, data, h.Counter, 0})
+				mu.Unlock()
+				return nil
+			}
+			for i := 0; i < p; i++ {
+				if err := send(ctx, fmt.Sprintf("pre%d", i)); err != nil {
+					rep.Inconclusivef("%s: send before the stall: %v", tag, err)
+					return
+				}
+			}
+			var armed atomic.Bool
+			reached, stall := make(chan struct{}), make(chan struct{})
+			sender.ds.Perturb = func(op, key string) {
+				if !strings.HasPrefix(key, prefix) && !strings.Contains(key, "\n"+prefix) {
+					return
+				}
+				if (op == "put" || op == "commit") && armed.CompareAndSwap(true, false) {
+					close(reached)
+					<-stall
+				}
+			}
+			armed.Store(true)
+			adone, bdone, cdone := make(chan error, 1), make(chan error, 1), make(chan error, 1)
+			go func() { adone <- send(ctx, "a-stalled") }()
+			select {
+			case <-reached:
+			case <-time.After(20 * time.Second):
+				rep.Inconclusivef("%s: the stalled write was never reached", tag)
+				return
+			}
+			bctx, bcancel := context.WithCancel(ctx)
+			go func() { bdone <- send(bctx, "b-gives-up-while-queued") }()
+			time.Sleep(30 * time.Millisecond) // let B queue up behind A
+			bcancel()
+			bReturned := false
+			select {
+			case <-bdone:
+				bReturned = true
+				rep.Count("queued_callers_that_left_before_the_lock_was_free", 1)
+			case <-time.After(150 * time.Millisecond):
+			}
+			go func() { cdone <- send(ctx, "c-next-sender") }()
+			select {
+			case err := <-cdone:
+				cdone <- err
+				rep.Count("next_sender_returned_while_the_first_write_was_still_stalled", 1)
+			case <-time.After(150 * time.Millisecond):
+			}
+			close(stall)
+			okq := true
+			for _, ch := range []chan error{adone, cdone} {
+				select {
+				case err := <-ch:
+					if err != nil {
+						rep.Violate("C09/send-fails-after-abandoned-send", fmt.Sprintf("a send with a live context failed next to a caller that gave up while queued: %v", err), tag)
+						okq = false
+					}
+				case <-time.After(30 * time.Second):
+					rep.Inconclusivef("%s: a send did not return (watchdog)", tag)
+					return
+				}
+			}
+			if !bReturned {
+				select {
+				case <-bdone:
+				case <-time.After(30 * time.Second):
+					rep.Inconclusivef("%s: the cancelled caller did not return (watchdog)", tag)
+					return
+				}
+			}
+			sender.ds.Perturb = nil
+			if okq {
+				for _, l := range []string{"d", "e"} {
+					if err := send(ctx, l); err != nil {
+						rep.Violate("C09/send-fails-after-abandoned-send", fmt.Sprintf("send %q afterwards failed: %v", l, err), tag)
+					}
+				}
+			}
+			rep.Case(tag)
+			mu.Lock()
+			all := append([]c09Sent(nil), sent...)
+			mu.Unlock()
+			rep.Eval(len(all))
+			c09JudgeReleased(ctx, rep, tag, recv, g, all)
+			sender.ds.OnMutation = nil
 		}
 	}
 	rep.Sample(map[string]interface{}{"positions": npos, "group_types": groupKinds})
